@@ -41,6 +41,7 @@ func (tr *Tracer) val(st *state, v ssa.Value) *Sym {
 	case *ssa.Const:
 		return &Sym{Kind: KConst, Const: v.Value, Typ: v.Type()}
 	case *ssa.Global:
+		v = tr.c.globalAlias(v)
 		return &Sym{Kind: KGlobal, Ref: v, Typ: v.Type()}
 	case *ssa.Function:
 		return &Sym{Kind: KFunc, Ref: v, Typ: v.Type()}
